@@ -19,6 +19,7 @@ import (
 	"os"
 	"os/exec"
 	"path/filepath"
+	"reflect"
 	"sort"
 	"strconv"
 	"strings"
@@ -40,14 +41,20 @@ import (
 type Crash struct {
 	Point string `json:"point"`
 	Occ   int    `json:"occ"`
+	Late  bool   `json:"late,omitempty"` // occurrences are counted from the session's "arm" action on (not from its start)
 }
 
 type Action struct {
-	Kind string  `json:"kind"` // batch | forcemerge | sleep | copy | hold | settle | quiesce | release | hold_persister | await_held | release_persister
+	Kind string  `json:"kind"` // batch | forcemerge | sleep | copy | hold | settle | quiesce | release | hold_persister | await_held | release_persister | arm | observe
 	Ops  []sw.Op `json:"ops,omitempty"`
-	US   int     `json:"us,omitempty"`
-	Dest string  `json:"dest,omitempty"`
-	Gate bool    `json:"gate,omitempty"` // copy: do not write the first file before a "release" action (or 60 s)
+	// hold_persister / await_held / release_persister: where the persister is held.  "" = at the end
+	// of a round (hook point persist_release_waiters); "mem_merge" = after it has picked a root and
+	// merged its in-memory segments into new segment files, before that merge is handed to the
+	// introducer (the merge_start event of an in-memory merge).  No lock is held at either place.
+	Point string `json:"point,omitempty"`
+	US    int    `json:"us,omitempty"`
+	Dest  string `json:"dest,omitempty"`
+	Gate  bool   `json:"gate,omitempty"` // copy: do not write the first file before a "release" action (or 60 s)
 }
 
 type Session struct {
@@ -62,9 +69,11 @@ type In struct {
 	Mode     string    `json:"mode"`
 	Layout   sw.Layout `json:"layout"`
 	NIDs     int       `json:"nids"`
+	NKeys    int       `json:"nkeys,omitempty"` // internal keys k0..k(NKeys-1) are set and deleted by the batches and observed
 	Sessions []Session `json:"sessions"`
 	Builder  []sw.Op   `json:"builder,omitempty"`  // c14: the index is first made by the offline Builder from these documents
 	KillUS   int       `json:"kill_us,omitempty"`  // c03: SIGKILL the first session after this many microseconds (no hook involved)
+	Probe    []sw.Op   `json:"probe,omitempty"`    // c13: the batch written to the copy rolled back to each rollback point
 	Rollback int       `json:"rollback,omitempty"` // c13: after session index Rollback-1, roll back to point #RollbackPick
 	Pick     int       `json:"pick,omitempty"`
 }
@@ -73,6 +82,7 @@ type childSpec struct {
 	Path        string    `json:"path"`
 	Layout      sw.Layout `json:"layout"`
 	NIDs        int       `json:"nids"`
+	NKeys       int       `json:"nkeys,omitempty"`
 	Session     Session   `json:"session"`
 	TagBase     int64     `json:"tag_base"`
 	First       bool      `json:"first"`
@@ -98,10 +108,62 @@ func genOps(r *vrand.R, nids int, ver *int64) []sw.Op {
 	return ops
 }
 
+// genIntOps: 0-2 SetInternal / DeleteInternal calls on the keys k0..k(nkeys-1), so that the
+// internal values differ from snapshot to snapshot (nkeys = 0: none, and nothing is drawn)
+func genIntOps(r *vrand.R, nkeys int, ver *int64) []sw.Op {
+	var ops []sw.Op
+	if nkeys <= 0 {
+		return nil
+	}
+	for j := r.Intn(3); j > 0; j-- {
+		if r.Chance(3, 5) {
+			*ver++
+			ops = append(ops, sw.Op{Kind: "setint", ID: r.Intn(nkeys), Ver: *ver})
+		} else {
+			ops = append(ops, sw.Op{Kind: "delint", ID: r.Intn(nkeys)})
+		}
+	}
+	return ops
+}
+
 func genActions(r *vrand.R, nids, nb int, ver *int64, pause []int, fmChance int) []Action {
+	return genActionsK(r, nids, 0, nb, ver, pause, fmChance)
+}
+
+func genActionsK(r *vrand.R, nids, nkeys, nb int, ver *int64, pause []int, fmChance int) []Action {
+	return genActionsU(r, nids, nkeys, nb, ver, pause, fmChance, 0)
+}
+
+// undoOf: a batch that deletes exactly the documents the given batch indexed (nil if it indexed
+// none).  After it the segment that batch created is gone from the root, while older snapshots
+// (rollback points) still name its file: the newest segment files on disk then belong to no
+// segment of the newest state.
+func undoOf(ops []sw.Op) []sw.Op {
+	var out []sw.Op
+	seen := map[int]bool{}
+	for _, o := range ops {
+		if o.Kind == "index" && !seen[o.ID] {
+			seen[o.ID] = true
+			out = append(out, sw.Op{Kind: "delete", ID: o.ID})
+		}
+	}
+	return out
+}
+
+// genActionsU is genActionsK where, with chance 1/undoChance (0 = never), a batch is followed by
+// its undo (see undoOf).
+func genActionsU(r *vrand.R, nids, nkeys, nb int, ver *int64, pause []int, fmChance, undoChance int) []Action {
 	var as []Action
 	for i := 0; i < nb; i++ {
-		as = append(as, Action{Kind: "batch", Ops: genOps(r, nids, ver)})
+		as = append(as, Action{Kind: "batch", Ops: append(genOps(r, nids, ver), genIntOps(r, nkeys, ver)...)})
+		if undoChance > 0 && r.Chance(1, undoChance) {
+			if u := undoOf(as[len(as)-1].Ops); u != nil {
+				if p := vrand.Pick(r, pause); p > 0 {
+					as = append(as, Action{Kind: "sleep", US: p})
+				}
+				as = append(as, Action{Kind: "batch", Ops: append(u, genIntOps(r, nkeys, ver)...)})
+			}
+		}
 		if fmChance > 0 && r.Chance(1, fmChance) {
 			as = append(as, Action{Kind: "forcemerge"})
 		}
@@ -111,6 +173,86 @@ func genActions(r *vrand.R, nids, nb int, ver *int64, pause []int, fmChance int)
 	}
 	return as
 }
+
+// memMergeWindow is a scheduled stretch of an unsafe-batch session: batches that obsolete documents
+// of in-memory segments land between the persister's pick of the root holding those segments and
+// the introduction of their in-memory merge (the window in which the "equiv" snapshot the persister
+// is about to write for the picked epoch and the current root drift apart):
+//
+//	hold the persister at the end of its round; one batch; wait until it is held
+//	2-3 batches, each indexing ids of its own        -> that many in-memory segments
+//	hold at "mem_merge"; let go of the round-end hold; wait until held there (root picked, merged
+//	                                                   segment files written, merge not introduced)
+//	1-3 batches deleting / overwriting documents of the picked segments (rarely all of them)
+//	arm the crash counter; let go
+//
+// Every hold and every wait is bounded (30 s); none of them is an observation.
+func memMergeWindow(r *vrand.R, nids, nkeys int, ver *int64) []Action {
+	var as []Action
+	batch := func(ops []sw.Op) {
+		as = append(as, Action{Kind: "batch", Ops: append(ops, genIntOps(r, nkeys, ver)...)})
+	}
+	as = append(as, Action{Kind: "hold_persister"})
+	batch(genOps(r, nids, ver))
+	as = append(as, Action{Kind: "await_held"})
+	ids := make([]int, nids)
+	for i := range ids {
+		ids[i] = i
+	}
+	vrand.Shuffle(r, ids)
+	nseg := 2
+	if nids >= 4 && r.Bool() {
+		nseg = 3
+	}
+	var victims []int
+	for sgi := 0; sgi < nseg; sgi++ {
+		// segment sgi gets 1-2 ids of its own (the first nseg ids, one each, plus maybe one more)
+		mine := []int{ids[sgi]}
+		if nseg+sgi < len(ids) && r.Bool() {
+			mine = append(mine, ids[nseg+sgi])
+		}
+		var ops []sw.Op
+		for _, id := range mine {
+			*ver++
+			ops = append(ops, sw.Op{Kind: "index", ID: id, Ver: *ver})
+		}
+		victims = append(victims, mine...)
+		batch(ops)
+	}
+	as = append(as, Action{Kind: "hold_persister", Point: "mem_merge"}, Action{Kind: "release_persister"}, Action{Kind: "await_held", Point: "mem_merge"})
+	vrand.Shuffle(r, victims)
+	spare := 1 // documents of the picked segments left alone (0: the merged segment may be obsoleted entirely)
+	if r.Chance(1, 6) {
+		spare = 0
+	}
+	hit := victims[:len(victims)-spare]
+	nb := r.Range(1, 3)
+	for j := 0; j < nb; j++ {
+		var ops []sw.Op
+		for _, id := range hit {
+			if j > 0 && !r.Chance(1, 2) {
+				continue
+			}
+			if r.Bool() {
+				*ver++
+				ops = append(ops, sw.Op{Kind: "index", ID: id, Ver: *ver})
+			} else {
+				ops = append(ops, sw.Op{Kind: "delete", ID: id})
+			}
+		}
+		if len(ops) == 0 {
+			ops = append(ops, sw.Op{Kind: "delete", ID: hit[0]})
+		}
+		batch(ops)
+	}
+	as = append(as, Action{Kind: "arm"}, Action{Kind: "release_persister", Point: "mem_merge"})
+	return as
+}
+
+// points at which a crash right after a scheduled window is most telling (the round that persists
+// the picked epoch, its purge, the next round); any other point is drawn as well
+var pointsAfterWindow = []string{"memmerge_introduced", "persist_prepared", "persist_before_commit", "persist_committed", "persist_synced",
+	"persist_release_waiters", "persist_pick", "purge_bolt_begin", "purge_bolt_committed", "zap_remove", "introduce", "merge_finish", "batch_persisted"}
 
 func gen(f vh.Flags, r *vrand.R, emit func(In)) {
 	mode := f.Mode
@@ -135,12 +277,51 @@ func gen(f vh.Flags, r *vrand.R, emit func(In)) {
 			case 2:
 				occ = r.Range(3, 12)
 			}
-			s1 := Session{Actions: genActions(r, nids, r.Range(4, 12), &ver, []int{0, 200, 2000}, 4), Crash: &Crash{pt, occ}, Garble: r.Chance(1, 3)}
+			s1 := Session{Actions: genActions(r, nids, r.Range(4, 12), &ver, []int{0, 200, 2000}, 4), Crash: &Crash{Point: pt, Occ: occ}, Garble: r.Chance(1, 3)}
 			s1.Actions = append(s1.Actions, Action{Kind: "sleep", US: 15000})
 			s2 := Session{Actions: genActions(r, nids, r.Range(2, 6), &ver, []int{200}, 0)}
 			if r.Chance(1, 2) {
-				s2.Crash = &Crash{vrand.Pick(r, points), r.Range(1, 5)}
+				s2.Crash = &Crash{Point: vrand.Pick(r, points), Occ: r.Range(1, 5)}
 			}
+			in.Sessions = []Session{s1, s2, {}}
+			emit(in)
+		}
+		// scheduled sessions (unsafe batches): obsoleting batches inside the window between the
+		// persister's pick of a root with several in-memory segments and the introduction of their
+		// in-memory merge, then a crash counted from the end of the window
+		ns := f.N(14, 800)
+		for k := 0; k < ns; k++ {
+			nids := r.Range(4, 7)
+			var ver int64
+			in := In{Mode: mode, NIDs: nids, NKeys: 2, Layout: sw.Layout{Config: "scorch-disk", Opts: r.Intn(6), Unsafe: true}}
+			if r.Chance(1, 3) {
+				in.Layout.Keep = r.Range(1, 3)
+			}
+			pt := pointsAfterWindow[k%len(pointsAfterWindow)]
+			if r.Chance(1, 4) {
+				pt = vrand.Pick(r, points)
+			}
+			as := genActionsK(r, nids, in.NKeys, r.Intn(4), &ver, []int{0, 200, 2000}, 3) // some history (file segments, merges) first
+			as = append(as, memMergeWindow(r, nids, in.NKeys, &ver)...)
+			as = append(as, genActionsK(r, nids, in.NKeys, r.Range(0, 4), &ver, []int{0, 200, 2000}, 4)...)
+			if r.Chance(1, 3) {
+				// a second window in the same session
+				as = append(as, memMergeWindow(r, nids, in.NKeys, &ver)...)
+				as = append(as, genActionsK(r, nids, in.NKeys, r.Range(0, 2), &ver, []int{200}, 0)...)
+			}
+			as = append(as, Action{Kind: "sleep", US: 15000})
+			s1 := Session{Actions: as, Crash: &Crash{Point: pt, Occ: r.Range(1, 3), Late: true}, Garble: r.Chance(1, 3)}
+			// the reopened index: more batches, sometimes another window, crash again or close
+			as2 := genActionsK(r, nids, in.NKeys, r.Range(1, 4), &ver, []int{200}, 0)
+			s2 := Session{}
+			if r.Chance(1, 2) {
+				as2 = append(as2, memMergeWindow(r, nids, in.NKeys, &ver)...)
+				as2 = append(as2, Action{Kind: "sleep", US: 15000})
+				s2.Crash = &Crash{Point: vrand.Pick(r, pointsAfterWindow), Occ: r.Range(1, 3), Late: true}
+			} else if r.Chance(1, 2) {
+				s2.Crash = &Crash{Point: vrand.Pick(r, points), Occ: r.Range(1, 5)}
+			}
+			s2.Actions = as2
 			in.Sessions = []Session{s1, s2, {}}
 			emit(in)
 		}
@@ -160,22 +341,59 @@ func gen(f vh.Flags, r *vrand.R, emit func(In)) {
 		for k := 0; k < n; k++ {
 			nids := r.Range(3, 6)
 			var ver int64
-			in := In{Mode: mode, NIDs: nids, Layout: sw.Layout{Config: "scorch-disk", Opts: r.Intn(5), Keep: r.Range(1, 5)}}
+			// numSnapshotsToKeep 1, 2, 3, 5 (every value in every eight cases), with and without a
+			// rollback sampling interval / retention factor
+			in := In{Mode: mode, NIDs: nids, NKeys: 3, Layout: sw.Layout{Config: "scorch-disk", Opts: r.Intn(5), Keep: []int{2, 3, 5, 1}[(k/2)%4]}}
+			if r.Chance(1, 3) {
+				in.Layout.Sampling = vrand.Pick(r, []string{"2ms", "6ms", "25ms"})
+				if r.Bool() {
+					in.Layout.RetFactor = vrand.Pick(r, []float64{0.25, 0.75, 1.0})
+				}
+			}
 			// spaced batches so that the retained rollback points really differ ...
 			pauses := []int{3000, 8000, 20000}
 			if k%2 == 1 {
 				// ... or bursts of unsafe batches, so that snapshots are persisted through the
 				// in-memory-merge path while later batches keep arriving
 				in.Layout.Unsafe = true
-				in.Layout.Keep = r.Range(3, 8)
+				in.Layout.Keep = []int{3, 5, 8, 2}[(k/2)%4]
 				pauses = []int{0, 0, 0, 300, 2000}
 			}
-			s1 := Session{Actions: genActions(r, nids, r.Range(5, 12)+8*(k%2), &ver, pauses, 5)}
+			// now and then a batch is undone by the next one (the documents it added are deleted
+			// again), in every second spaced case also at the very end of the history: the newest
+			// segment files then belong to older rollback points only
+			as := genActionsU(r, nids, in.NKeys, r.Range(5, 12)+8*(k%2), &ver, pauses, 5, 6)
+			if k%4 == 0 || k%8 == 1 {
+				var last []sw.Op
+				for {
+					last = genOps(r, nids, &ver)
+					if undoOf(last) != nil {
+						break
+					}
+				}
+				as = append(as, Action{Kind: "batch", Ops: append(last, genIntOps(r, in.NKeys, &ver)...)}, Action{Kind: "sleep", US: vrand.Pick(r, pauses)},
+					Action{Kind: "batch", Ops: append(undoOf(last), genIntOps(r, in.NKeys, &ver)...)})
+			}
+			if k%4 == 3 {
+				// ... with obsoleting batches scheduled into the window between the persister's pick
+				// and the introduction of the in-memory merge (see memMergeWindow), the picked epoch
+				// staying on offer as a rollback point
+				pos := r.Intn(len(as) + 1)
+				w := memMergeWindow(r, nids, in.NKeys, &ver)
+				as = append(as[:pos:pos], append(w, as[pos:]...)...)
+			}
+			s1 := Session{Actions: as}
 			s1.Actions = append(s1.Actions, Action{Kind: "settle"})
-			s2 := Session{Actions: genActions(r, nids, r.Range(1, 4), &ver, []int{500}, 0)}
+			s2 := Session{Actions: genActionsK(r, nids, in.NKeys, r.Range(1, 4), &ver, []int{500}, 0)}
 			in.Sessions = []Session{s1, s2, {}}
+			for len(undoOf(in.Probe)) == 0 {
+				in.Probe = genOps(r, nids, &ver)
+			}
 			in.Rollback = 1
 			in.Pick = r.Intn(8)
+			if r.Chance(1, 3) {
+				in.Pick = 0 // the newest point: rolling back to it changes nothing
+			}
 			emit(in)
 		}
 	case "c14":
@@ -335,11 +553,14 @@ func childMain(specJSON string) {
 	mappingPersisted := make(chan struct{})
 	var once sync.Once
 	count := 0
-	// holdCh != nil (guarded by mu): the persister is held at the end of its current round (hook
-	// point persist_release_waiters: no lock held, the round's commit is done) until the channel is
-	// closed - a sequencing aid for unsafe-batch scenarios, bounded by 30 s
-	var holdCh chan struct{}
-	heldNow := make(chan struct{}, 1)
+	// holds[p] != nil (guarded by mu): the persister is held at place p until the channel is closed
+	// - a sequencing aid for unsafe-batch scenarios, bounded by 30 s.  Places (no lock is held at
+	// either): "" = the end of its current round (hook point persist_release_waiters: the round's
+	// commit is done); "mem_merge" = it has picked a root and merged that root's in-memory segments
+	// into new files, and is about to hand the merge to the introducer (merge_start event of an
+	// in-memory merge)
+	holds := map[string]chan struct{}{}
+	heldNow := map[string]chan struct{}{"": make(chan struct{}, 1), "mem_merge": make(chan struct{}, 1)}
 	ctl := func(ev *scorch.VerifEvent) {
 		mu.Lock()
 		emit(ev)
@@ -351,8 +572,12 @@ func childMain(specJSON string) {
 			copyWaiters = copyWaiters[1:]
 		}
 		var wait chan struct{}
+		place := ""
 		if ev.Kind == "point" && ev.Name == "persist_release_waiters" {
-			wait = holdCh
+			wait = holds[""]
+		} else if ev.Kind == "merge_start" && !ev.FileMerge {
+			place = "mem_merge"
+			wait = holds[place]
 		}
 		if armed && spec.Session.Crash != nil {
 			name := ev.Kind
@@ -369,7 +594,7 @@ func childMain(specJSON string) {
 		mu.Unlock()
 		if wait != nil {
 			select {
-			case heldNow <- struct{}{}:
+			case heldNow[place] <- struct{}{}:
 			default:
 			}
 			select {
@@ -415,6 +640,21 @@ func childMain(specJSON string) {
 			os.Exit(5)
 		}
 		note(sw.ObserveNote(vs))
+		if spec.NKeys > 0 {
+			var gerr error
+			args := sw.IntArgs(spec.NKeys, func(k []byte) []byte {
+				v, err := idx.GetInternal(k)
+				if err != nil {
+					gerr = err
+				}
+				return v
+			})
+			if gerr != nil {
+				fmt.Fprintln(os.Stderr, "child: observe failed: GetInternal:", gerr)
+				os.Exit(5)
+			}
+			note(sw.Note("observe_int", args...))
+		}
 		// the reopened index must also answer searches and counts consistently with Document()
 		cnt, _ := idx.DocCount()
 		live := 0
@@ -443,7 +683,7 @@ func childMain(specJSON string) {
 		}
 	}
 	mu.Lock()
-	armed = true
+	armed = spec.Session.Crash == nil || !spec.Session.Crash.Late
 	mu.Unlock()
 
 	stopSampler := make(chan struct{})
@@ -512,6 +752,14 @@ func childMain(specJSON string) {
 		mu.Lock()
 		defer mu.Unlock()
 		return nMergeStarts
+	}
+	releaseHold := func(place string) {
+		mu.Lock()
+		if holds[place] != nil {
+			close(holds[place])
+			holds[place] = nil
+		}
+		mu.Unlock()
 	}
 	copyGate := make(chan struct{}) // closed by a "release" action
 	var gateOnce sync.Once
@@ -619,23 +867,61 @@ func childMain(specJSON string) {
 		case "release":
 			gateOnce.Do(func() { close(copyGate) })
 		case "hold_persister":
-			// the persister stops at the end of the round it is in / starts next, and waits there
-			mu.Lock()
-			if holdCh == nil {
-				holdCh = make(chan struct{})
+			// the persister stops when it next comes to that place, and waits there
+			if _, ok := heldNow[a.Point]; ok {
+				select { // forget an earlier stop at that place nobody waited for
+				case <-heldNow[a.Point]:
+				default:
+				}
+				mu.Lock()
+				if holds[a.Point] == nil {
+					holds[a.Point] = make(chan struct{})
+				}
+				mu.Unlock()
 			}
-			mu.Unlock()
 		case "await_held":
-			select {
-			case <-heldNow:
-			case <-time.After(30 * time.Second):
+			if ch, ok := heldNow[a.Point]; ok {
+				// ... or until the persister has come to rest without passing that place (then the
+				// schedule this session was meant to explore did not come about; nothing is judged by it)
+				deadline := time.Now().Add(30 * time.Second)
+			awaiting:
+				for time.Now().Before(deadline) {
+					select {
+					case <-ch:
+						break awaiting
+					case <-time.After(3 * time.Millisecond):
+						if a.Point != "" && quiet(readBG()) {
+							break awaiting
+						}
+					}
+				}
 			}
 		case "release_persister":
-			mu.Lock()
-			if holdCh != nil {
-				close(holdCh)
-				holdCh = nil
+			releaseHold(a.Point)
+		case "observe":
+			// what the open index shows right now (used on copies rolled back to a rollback point)
+			vs, err := sw.DocVersions(idx, spec.NIDs)
+			if err != nil {
+				fmt.Fprintln(os.Stderr, "child: observe failed:", err)
+				os.Exit(5)
 			}
+			note(sw.ObserveNote(vs))
+			cnt, _ := idx.DocCount()
+			live := 0
+			for _, v := range vs {
+				if v != nil {
+					live++
+				}
+			}
+			if int(cnt) != live {
+				fmt.Fprintf(os.Stderr, "child: DocCount=%d but %d documents are retrievable\n", cnt, live)
+				os.Exit(10)
+			}
+		case "arm":
+			// the crash counter of a session with a late crash starts here
+			mu.Lock()
+			armed = true
+			count = 0
 			mu.Unlock()
 		case "settle":
 			// Wait until the background work has come to rest (waitQuiet above), then read the retained
@@ -666,6 +952,7 @@ func childMain(specJSON string) {
 						var b *bleve.Batch
 						var seq int64
 						if b, seq, err = tg.Build(idx, nil, true); err == nil {
+							note(sw.Note("submit", uint64(seq)))
 							if err = idx.Batch(b); err == nil && !spec.Layout.Unsafe {
 								note(sw.Note("ack", uint64(seq)))
 							}
@@ -706,6 +993,8 @@ func childMain(specJSON string) {
 		}
 	}
 	bg.Wait()
+	releaseHold("")
+	releaseHold("mem_merge")
 	select {
 	case <-stopSampler:
 	default:
@@ -844,17 +1133,19 @@ func garble(storeDir string, r *vrand.R) (int, error) {
 	return n, nil
 }
 
-func mirrorTags(tg *sw.Tagger, s Session) {
+func mirrorTags(tg *sw.Tagger, s Session, calls map[uint64][]sw.Op) {
 	for _, a := range s.Actions {
 		if a.Kind == "settle" && s.Sampler {
 			tg.Seq++ // the empty batch that triggers a last persister / purger round
 			tg.Vers[tg.Seq] = map[string]int64{}
+			calls[uint64(tg.Seq)] = []sw.Op{}
 			continue
 		}
 		if a.Kind != "batch" {
 			continue
 		}
 		tg.Seq++
+		calls[uint64(tg.Seq)] = a.Ops
 		vers := map[string]int64{}
 		for _, o := range a.Ops {
 			switch o.Kind {
@@ -886,6 +1177,7 @@ func exec_(in In) vh.Result {
 	var copyEpochs []uint64
 	var copyDests []string
 	rolledBack := false
+	calls := map[uint64][]sw.Op{} // the calls of every tagged batch, as generated
 	if in.Builder != nil {
 		return execBuilder(in, dir, path)
 	}
@@ -893,8 +1185,8 @@ func exec_(in In) vh.Result {
 		return execKill(in, dir, path)
 	}
 	for si, s := range in.Sessions {
-		spec := childSpec{Path: path, Layout: in.Layout, NIDs: in.NIDs, Session: s, TagBase: tagBase, First: si == 0}
-		mirrorTags(tg, s)
+		spec := childSpec{Path: path, Layout: in.Layout, NIDs: in.NIDs, NKeys: in.NKeys, Session: s, TagBase: tagBase, First: si == 0}
+		mirrorTags(tg, s, calls)
 		tagBase = tg.Seq
 		if si > 0 {
 			// the snapshot this session starts from, read off root.bolt while no process has the
@@ -964,7 +1256,23 @@ func exec_(in In) vh.Result {
 				return vh.Result{Direct: &vh.Direct{Kind: "no-rollback-points", Detail: fmt.Sprintf("RollbackPoints after a clean close: %v (%d points)", err, len(pts))}}
 			}
 			p := pts[in.Pick%len(pts)]
-			// the point's own identification: the batch tag stored with it
+			// every point on offer: its epoch and the internal values it reports ...
+			var pargs []uint64
+			for _, pt := range pts {
+				pargs = append(pargs, pointEpoch(pt))
+				pargs = append(pargs, sw.IntArgs(in.NKeys, pt.GetInternal)...)
+			}
+			all = append(all, sw.Note("rollback_points", pargs...))
+			// ... and the state it stands for: a copy of the closed index is rolled back to it and opened
+			for pi := 0; pi < len(pts) && pi < 6; pi++ {
+				cp := fmt.Sprintf("%s/pt%d", dir, pi)
+				sts, d := pointState(in, path, cp, pi, pointEpoch(pts[pi]))
+				if d != nil {
+					return vh.Result{Direct: d}
+				}
+				all = append(all, sts...)
+				os.RemoveAll(cp)
+			}
 			if err := scorch.Rollback(path+"/store", p); err != nil {
 				return vh.Result{Direct: &vh.Direct{Kind: "rollback-failed", Detail: err.Error()}}
 			}
@@ -1014,11 +1322,43 @@ func exec_(in In) vh.Result {
 		}
 	}
 	namer := &strace.Namer{DocID: sw.DocNum}
-	terms, stats := sw.DiskTerms(all, namer, tg.VersionOf)
+	calls[probeCallsTag] = in.Probe
+	terms, stats := sw.DiskTermsWith(all, namer, tg.VersionOf, func(tag uint64) ([]sw.Op, bool) { ops, ok := calls[tag]; return ops, ok }, in.NKeys)
 	for k, v := range stats {
 		if v > 0 {
 			hist = append(hist, "ev:"+k)
 		}
+	}
+	// did a scheduled window come about?  an in-memory merge whose new segment already carried
+	// deletions when it was introduced: documents of the picked segments were obsoleted between the
+	// persister's pick and the introduction
+	windows, hit := 0, 0
+	for _, s := range in.Sessions {
+		for _, a := range s.Actions {
+			if a.Kind == "hold_persister" && a.Point == "mem_merge" {
+				windows++
+			}
+		}
+	}
+	for _, e := range all {
+		if e == nil || e.Kind != "merge_finish" || e.FileMerge {
+			continue
+		}
+		for _, t := range e.Tasks {
+			for _, sg := range e.Root {
+				if sg.ID == t.New && len(sg.Deleted) > 0 {
+					hit++
+				}
+			}
+			if t.Skipped && windows > 0 {
+				hist = append(hist, "window:merge-skipped")
+			}
+		}
+	}
+	if hit > 0 {
+		hist = append(hist, "window:obsoleted-before-merge-intro")
+	} else if windows > 0 {
+		hist = append(hist, "window:none")
 	}
 	sort.Strings(hist)
 	nontrivial := false
@@ -1034,6 +1374,77 @@ func exec_(in In) vh.Result {
 	}
 	return vh.Result{Term: cf.App("CDisk", cf.List(terms)), Nontrivial: nontrivial, Hist: hist, Direct: direct, Class: class, Traces: 1,
 		Key: fmt.Sprintf("%d/%d/%d", len(terms), stats["commit"], stats["merge_finish"])}
+}
+
+// under this pseudo tag the lineariser finds the calls of the probe batch of "point_write" notes
+const probeCallsTag = ^uint64(0)
+
+// pointEpoch reads the snapshot epoch of a rollback point (an unexported field the API does not
+// show; read through reflection, which permits reading - not setting - unexported integer fields).
+func pointEpoch(p *scorch.RollbackPoint) uint64 {
+	return reflect.ValueOf(p).Elem().FieldByName("epoch").Uint()
+}
+
+// pointState copies the closed index at path to cp, rolls the copy back to its rollback point number
+// pi (which must be the point of the given epoch), opens it in a child process, which reports what
+// it shows, writes the probe batch and reports again.  Returned notes: "point_state" (epoch, number
+// of documents, versions, internal values) and "point_write" (epoch, new segment id, number of
+// documents, versions afterwards).
+func pointState(in In, path, cp string, pi int, epoch uint64) ([]*scorch.VerifEvent, *vh.Direct) {
+	if err := os.CopyFS(cp, os.DirFS(path)); err != nil {
+		return nil, &vh.Direct{Kind: "error", Detail: "copy: " + err.Error()}
+	}
+	cpts, err := scorch.RollbackPoints(cp + "/store")
+	if err != nil || pi >= len(cpts) || pointEpoch(cpts[pi]) != epoch {
+		return nil, &vh.Direct{Kind: "rollback-points-unstable", Detail: fmt.Sprintf("RollbackPoints on a byte-for-byte copy of the closed index: %v, %d points, point #%d is not the point of epoch %d", err, len(cpts), pi, epoch)}
+	}
+	if err := scorch.Rollback(cp+"/store", cpts[pi]); err != nil {
+		return nil, &vh.Direct{Kind: "rollback-failed", Detail: fmt.Sprintf("Rollback to point #%d (epoch %d): %v", pi, epoch, err)}
+	}
+	const probeTagBase = 900000
+	sess := Session{}
+	if len(in.Probe) > 0 {
+		sess.Actions = []Action{{Kind: "batch", Ops: in.Probe}, {Kind: "observe"}}
+	}
+	evs, code, stderr, err := runChild(childSpec{Path: cp, Layout: in.Layout, NIDs: in.NIDs, NKeys: in.NKeys, Session: sess, TagBase: probeTagBase, ObserveOnly: len(in.Probe) == 0})
+	if err != nil {
+		return nil, &vh.Direct{Kind: "error", Detail: err.Error()}
+	}
+	what := fmt.Sprintf("Rollback to point #%d (epoch %d)", pi, epoch)
+	switch code {
+	case 0:
+	case 4:
+		return nil, &vh.Direct{Kind: "reopen-failed", Detail: fmt.Sprintf("the index could not be opened after %s: %s", what, lastLines(stderr, 6))}
+	case 10:
+		return nil, &vh.Direct{Kind: "reopen-inconsistent", Detail: fmt.Sprintf("after %s: %s", what, strings.TrimSpace(stderr))}
+	case 7:
+		return nil, &vh.Direct{Kind: "write-after-rollback-failed", Detail: fmt.Sprintf("after %s a batch was refused: %s", what, lastLines(stderr, 6))}
+	default:
+		return nil, &vh.Direct{Kind: "child-failed", Detail: fmt.Sprintf("after %s: exit %d: %s", what, code, lastLines(stderr, 8))}
+	}
+	var obs [][]uint64
+	var ints []uint64
+	newSeg := uint64(0)
+	probeTag := strconv.Itoa(probeTagBase + 1)
+	for _, e := range evs {
+		switch {
+		case e.Kind == "note" && e.Name == "observe":
+			obs = append(obs, e.Args)
+		case e.Kind == "note" && e.Name == "observe_int" && ints == nil:
+			ints = e.Args
+		case e.Kind == "introduce" && string(e.Internal["__b"]) == probeTag:
+			newSeg = e.NewSegID
+		}
+	}
+	if len(obs) == 0 {
+		return nil, &vh.Direct{Kind: "error", Detail: "no observation of rollback point"}
+	}
+	args := append([]uint64{epoch, uint64(len(obs[0]))}, obs[0]...)
+	out := []*scorch.VerifEvent{sw.Note("point_state", append(args, ints...)...)}
+	if len(obs) > 1 {
+		out = append(out, sw.Note("point_write", append([]uint64{epoch, newSeg, uint64(len(obs[1]))}, obs[1]...)...))
+	}
+	return out, nil
 }
 
 // execBuilder: the index is made by the offline Builder, then opened and written to while online
@@ -1217,8 +1628,8 @@ func lastLines(s string, n int) string {
 }
 
 var rules = map[string]string{
-	"c03": "three-session runs on a disk-backed scorch index (5 persister/merge option variants, safe and unsafe batches, retention 1-3 or default): session 1 = 4-12 tagged batches with forced merges, killed (os.Exit in a child process) at the n-th occurrence of one of 22 hook points (every point used in every quick run; n = 1, 2-4 or 3-12), optionally followed by damaging every segment file no committed snapshot names; session 2 = reopen, observe, 2-6 more batches, crash again or close; session 3 = reopen, observe. Non-trivial: a crash really happened and at least two snapshots had been committed",
-	"c13": "session 1 = 5-12 spaced, tagged batches with forced merges under numSnapshotsToKeep 1-5, settle, clean close; RollbackPoints is listed and Rollback applied to one point (chosen by seed); session 2 = reopen, observe (must equal the state of that point), write 1-4 batches, close; session 3 = reopen, observe. Non-trivial: at least three snapshots were committed before the rollback",
+	"c03": "three-session runs on a disk-backed scorch index (5-6 persister/merge option variants, safe and unsafe batches, retention 1-3 or default): session 1 = 4-12 tagged batches with forced merges, killed (os.Exit in a child process) at the n-th occurrence of one of 22 hook points (every point used in every quick run; n = 1, 2-4 or 3-12), optionally followed by damaging every segment file no committed snapshot names; session 2 = reopen, observe, 2-6 more batches, crash again or close; session 3 = reopen, observe. Scheduled family (unsafe batches, batches also set/delete two internal keys): the persister is held (bounded) at the end of a round while 2-3 batches build in-memory segments, then at the merge_start of their in-memory merge while 1-3 batches delete/overwrite documents of the picked segments, released with the crash counter armed, killed at the m-th (1-3) occurrence of a hook point from there on; the reopened session may contain another window; reopens also report every internal key. Plus sessions killed by SIGKILL at wall-clock instants (judged by the statement). Non-trivial: a crash really happened and at least two snapshots had been committed",
+	"c13": "session 1 = 5-12 spaced (or 13-20 unsafe, bursty; every fourth case with a scheduled in-memory-merge window) tagged batches that also set/delete three internal keys, forced merges, numSnapshotsToKeep 1/2/3/5 (unsafe 2/3/5/8), a third with rollbackSamplingInterval 2-25 ms and a retention factor; settle, clean close; RollbackPoints is listed: epoch and GetInternal of every key for EVERY point go to the model; now and then a batch is undone by the next one (also at the very end of the history), so that the newest segment files belong to older points only; for each point (up to 6) a copy of the index is rolled back to it, opened, its documents and internal values reported, one more batch written to it and the documents reported again (the model, rolled back to that record, must accept that write - fresh segment id - and show the same contents); Rollback applied to one point (chosen by seed); session 2 = reopen, observe documents and internal values (must equal the state of that point), write 1-4 batches, close; session 3 = reopen, observe. Non-trivial: at least three snapshots were committed before the rollback",
 	"c14": "6-16 tagged batches with forced merges and pauses; 1-3 CopyTo calls start at random positions and run concurrently with the rest of the workload (persists, merges, purges); every destination is then opened as an index and its contents reported. Non-trivial: a merge or purge happened during the run",
 	"c12": "8-24 tagged batches (safe/unsafe, retention 0-3) with forced merges, held readers and an online copy; a sampler lists the segment files every 1.5 ms (begin/end markers), the directory is listed at quiescence together with the retained snapshot epochs, and /proc/self/fd is checked after Close. Non-trivial: at least one segment file was removed and three listings were taken",
 }
